@@ -85,6 +85,11 @@ Theorem C06_given_word_best_frac : forall (signed : bool) wmax vals w0 w f,
        exists v, In v vals /\ ~ (- 2^(w - sign - f - 1 + nfr) <= scaled_trunc v nfr < 2^(w - sign - f - 1 + nfr))).
 Proof. exact best_sizes_given_word. Qed.
 Print Assumptions C06_given_word_best_frac.
+(* an inferred word never exceeds the configured maximum, whichever of the sizes are given *)
+Theorem C06_word_within_max : forall (signed : bool) nwo nfo wmax vals w f,
+  best_sizes signed nwo nfo wmax vals = Ok (w, f) -> w <= wmax.
+Proof. exact best_sizes_word_within_max. Qed.
+Print Assumptions C06_word_within_max.
 (* PARTIAL: the reconciliation with the 64-bit cap (fraction length shortened, value quantized and flagged inexact) and n_frac given
    for values that are not multiples of 2^-n_frac are modelled and compared on every case, not stated as theorems. *)
 Example C06_given_examples :
